@@ -10,7 +10,7 @@ LEVEL = "proof"
 GEN = ["RefLinksGen", "UtilGen", "RxGen", "UnicodeGen", "InlineGen", "BlockGen", "NormalizeGen"]
 COQ = ["Props/C12.vo"]
 EXPLANATION = (
-    "Theorems in coq/Props/C12.v. On the block parser model (coq/Model/Block.v, tied by skeletons, BlockGen and a token-tree + table correspondence run): a definition is ignored or appended under a key not yet in the table, and through the whole block pass - every handler, nested or interrupting block - a defined key keeps its definition (C12_block_model_first_definition_is_kept). On the model of the reference table (first-wins insertion keyed by unikey, lookup by "
+    "Theorems in coq/Props/C12.v. On the block parser model (coq/Model/Block.v, tied by skeletons, BlockGen and a token-tree + table correspondence run): a definition is ignored or appended under a key not yet in the table, and through the whole block pass - every handler, nested or interrupting block - a defined key keeps its definition (C12_block_model_first_definition_is_kept); in the whole-document model every inline text, wherever it stands, is parsed with the one final table of the finished block pass (C12_document_scope). On the model of the reference table (first-wins insertion keyed by unikey, lookup by "
     "unikey, and the two-pass structure: the table used by EVERY inline lookup is the table of ALL definitions in "
     "document order): whole-document scope, first definition wins regardless of what else is defined, lookups are "
     "invariant under letter-case variants and white-space-run variants of the label on both the use and the definition "
